@@ -714,8 +714,11 @@ def render(toks, layout: random.Random | None = None, comment_p=0.15) -> Rendere
         else:
             col += len(s)
 
+    dense = layout == "dense"  # the whole program on one line, one blank where tokens would glue
     for ti, tok in enumerate(toks):
-        if layout is None:
+        if dense:
+            sep = " " if prev is not None and needs_sep(prev, tok.text) else ""
+        elif layout is None:
             if isinstance(tok.pre, tuple):
                 sep = ("\n" if ti else "") + "    " * tok.pre[1]
             else:
@@ -735,7 +738,7 @@ def render(toks, layout: random.Random | None = None, comment_p=0.15) -> Rendere
             # position of the last character of the token
             endpos[m] = (line, col - 1)
         prev = tok.text
-    if layout is None:
+    if layout is None or dense:
         put("\n")
     else:
         tail = _random_sep(layout, comment_p, first=False)
